@@ -44,11 +44,19 @@ def _load_findings():
 
 
 def findings_for(prop, lemma=None):
+    """entries of known_findings.json for a property; `lemma` may be an fnmatch pattern in the file: the key is
+    excluded from every matching lemma's main run, and re-checked in the lemma named by `witness_lemma`
+    (default: the `lemma` field itself when it is not a pattern)"""
+    import fnmatch
     out = []
     for e in _load_findings().get("findings", []):
-        if e["property"] == prop and (lemma is None or e.get("lemma") == lemma):
+        if e["property"] == prop and (lemma is None or fnmatch.fnmatchcase(lemma, e.get("lemma", ""))):
             out.append(e)
     return out
+
+
+def _witness(e):
+    return e.get("witness_lemma") or e.get("lemma")
 
 
 # ---------------------------------------------------------------------------------------------
@@ -259,8 +267,9 @@ def run_property(prop: str, tier: str) -> int:
         tasks.append((modname, lem.name, tier, "main", None, known))
         if lem.twin:
             tasks.append((modname, lem.name, tier, "twin", None, known))
-        for k in known:
-            tasks.append((modname, lem.name, tier, "finding", k, known))
+        for e_ in findings_for(prop, lem.name):
+            if _witness(e_) == lem.name:
+                tasks.append((modname, lem.name, tier, "finding", e_["key"], known))
     results = []
     ctx = mp.get_context("spawn")
     with cf.ProcessPoolExecutor(max_workers=workers, mp_context=ctx) as ex:
@@ -284,7 +293,7 @@ def _fold(prop, tier, seed, mod, lemmas, results, wall):
     violations = 0
     harness_errors = []
     lemma_evidence = []
-    known_all = {(e.get("lemma"), e["key"]): e for e in findings_for(prop)}
+    known_all = {(_witness(e), e["key"]): e for e in findings_for(prop)}
     rep_dir = os.path.join(VERIF, "replays", prop)
     if os.path.isdir(rep_dir):
         for fn in os.listdir(rep_dir):
@@ -346,7 +355,12 @@ def _fold(prop, tier, seed, mod, lemmas, results, wall):
             ev["vacuous"] = not tw_ok
             if tw_ok and twin.get("args") is not None and len(samples) < 40:
                 samples.append({"lemma": lem.name, "twin_witness": _jsonable(twin.get("args"))})
-            if not tw_ok and st == "CONFIRMED":
+            covered = any(_witness(e_) == lem.name and (rs.get(("finding", e_["key"]), {}).get("replay") or {}).get("reproduced")
+                          for e_ in findings_for(prop, lem.name))
+            if not tw_ok and st == "CONFIRMED" and covered:
+                ev["vacuity_twin"] = "main run is empty: every input of this lemma belongs to a listed known finding (which still fails)"
+                ev["vacuous"] = False
+            elif not tw_ok and st == "CONFIRMED":
                 harness_errors.append("%s: vacuous (twin %s: %s)" % (lem.name, twin.get("state"), twin.get("message", "")[:300]))
         # known findings
         for (lname, key), e in known_all.items():
